@@ -71,7 +71,7 @@ PLAN["C09"] = dict(
          "generation: tapes decoded into three strings sharing a prefix (order laws), a digit string (random length <= 25, or clustered around 2^31/2^32/powers of ten, or long runs of 9, with leading zeros), a digit string with one non-digit inserted at a random position, and an i32. The same seeds run in the rel (no overflow checks) and dbg (overflow checks) builds. "
          "Non-trivial = digit string with value >= 2^31 (also before an inserted non-digit), or two different strings sharing a non-empty prefix; distinct = digest of the decoded tuple / by construction.",
     oracle="str_lt/str_le = Rust slice order on [u32] plus trichotomy, le = lt or eq, transitivity, prefix => le; str_to_int against a u128 evaluation: all-digit and <= i32::MAX => that value, all-digit and larger => must panic, otherwise -1 without panic; from_int/to_code/from_code/is_digit by definition; to_code(from_code(x)) = x and to_int(from_int(n)) = n",
-    assumptions=COMMON_ASSUMPTIONS + ["'every build profile' = the two profiles a cargo user gets: release-like (opt-level 3, no overflow checks, no debug assertions) and dev/test-like (overflow checks and debug assertions on)"],
+    assumptions=COMMON_ASSUMPTIONS + ["'every build profile' = release-like (opt-level 3, no overflow checks, no debug assertions) and dev/test-like (overflow checks and debug assertions on; opt-level 1 for the generated cases, opt-level 0 of the library for the enumerated ones)"],
     same_seeds=True,
     quick=dict(enum={"rel": 8, "dbg": 8, "o0": 2}, proptest={"rel": (8, 40000), "dbg": (8, 40000)}, same_seeds=True),
     thorough=dict(enum={"rel": 16, "dbg": 16, "o0": 2}, proptest={"rel": (16, 1000000), "dbg": (16, 1000000)}, same_seeds=True),
